@@ -589,4 +589,30 @@ theorem T_C17_query_answer (transform : V3 → V3) (l : Link) (qs : List V3) (p 
       (Link.runEv transform (l, qs) [.move p, .query, .update]).1.follower = transform p := by
   simp [Link.runEv, Link.step, Link.update]
 
+/-! ### Round 6d: a clamp has no memory -/
+
+/-- after ANY history of `update_params` calls the clamp holds exactly the last parameters it was given and reports the
+    position function at them — nothing of earlier updates survives, and nothing is clipped: parameters outside the
+    declared bounds are stored as given (the bounds are an argument of `scipy.optimize.minimize` in `get_params` and in
+    the optimizer, not of `update_params`; C17 quantifies over parameter values within bounds).  With the manifold
+    theorems (`T_C17_line_on`, `_plane_on`, `_radial_on`, `_curve_*`, `_surface_*`) the position after any history lies on
+    the declared manifold. -/
+theorem T_C17_clamp_history (f : List Rat → V3) (c : ClampSt) (hist : List (List Rat)) (ps : List Rat) :
+    ClampSt.run f c (hist ++ [ps]) = ⟨ps, f ps⟩ := by
+  simp [ClampSt.run, List.foldl_append, ClampSt.update]
+
+/-- e.g. a line clamp after any history: still on the line, at signed distance `t` from `p1` -/
+theorem T_C17_clamp_history_line (p1 p2 : V3) (s : Rat) (c : ClampSt) (hist : List (List Rat)) (t : Rat)
+    (hs : s ≠ 0) (hw : s * s = V3.dot (p2 - p1) (p2 - p1)) :
+    let f : List Rat → V3 := fun ps => lineClamp p1 p2 s (ps.headD 0)
+    V3.cross ((ClampSt.run f c (hist ++ [[t]])).position - p1) (p2 - p1) = V3.zero := by
+  intro f
+  rw [T_C17_clamp_history]
+  exact (T_C17_line_on p1 p2 s t hs hw).1
+
+example : (13 : Rat) ≠ 0 ∧ (13 : Rat) * 13 = V3.dot ((⟨3, 4, 12⟩ : V3) - ⟨0, 0, 0⟩) (⟨3, 4, 12⟩ - ⟨0, 0, 0⟩) := by
+  constructor
+  · norm_num
+  · c17_unfold; norm_num
+
 end CBV.C17
